@@ -162,15 +162,22 @@ func (fb *fileBuilder) printFile(ff protoreflect.FileDescriptor) ([]byte, error)
 	imports := ff.Imports()
 
 	importStrings := make([]string, 0, imports.Len())
+	importModifiers := make(map[string]string, imports.Len())
 	for idx := 0; idx < imports.Len(); idx++ {
 		dep := imports.Get(idx)
 		importStrings = append(importStrings, dep.Path())
+		switch {
+		case dep.IsPublic:
+			importModifiers[dep.Path()] = "public "
+		case dep.IsWeak:
+			importModifiers[dep.Path()] = "weak "
+		}
 	}
 
 	if len(importStrings) > 0 {
 		sort.Strings(importStrings)
 		for _, dep := range importStrings {
-			fb.p("import \"", dep, "\";")
+			fb.p("import ", importModifiers[dep], "\"", dep, "\";")
 		}
 		fb.addGap()
 	}
